@@ -8,7 +8,7 @@ from ..core import Fail
 PID = "C19"
 RULE = ("valid member lists: one outer polygon with 1-3 holes (ConnectedShape of the outer simple shape and the complements "
         "of the holes), 2-4 pairwise disjoint components some with holes (DisjointShape), unbounded members, Empty "
-        "entries, single-member and empty lists; ALL permutations of lists with <= 4 members; compared with the "
+        "entries, single-member and empty lists; float components whose areas do not add up exactly (== and float(S) across orders); ALL permutations of lists with <= 4 members; compared with the "
         "operator results (outer - hole1 - hole2, c1 | c2 | c3): kind, curves, area, moments of order <= 2, containment "
         "on slab samples, complement; non-trivial = at least 2 members; distinct = SHA-1")
 PROOF_STATUS = ("Props/C19.v: containment, region, area, moments are invariant under permutation of the list; the sort is a "
@@ -29,6 +29,12 @@ def cases(ctx):
         d = G.disjoint_shape(rng, R=rng.choice([8, 14]), den=rng.choice([1, 2]), ncomp=rng.choice([2, 3, 3, 4]))
         if d[0] == "D":
             yield {"k": "disjoint", "comps": d[1], "empties": i % 3, "num": "frac"}
+    # float data whose component areas do not add up exactly (0.1 + 0.2 + 0.3): the stored order must be canonical
+    for i in range(ctx.n(6, 100)):
+        d = G.disjoint_shape(rng, R=rng.choice([8, 14]), den=1, ncomp=rng.choice([3, 3, 4]))
+        if d[0] == "D":
+            d = U.map_shape(d, lambda p: (p[0] / 10, p[1] / 10))
+            yield {"k": "disjoint", "comps": d[1], "empties": 0, "num": "float"}
     sq = ("S", G.verts_to_jordan(G.ccw([(F(0), F(0)), (F(3), F(0)), (F(3), F(3)), (F(0), F(3))])))
     yield {"k": "single", "comp": sq}
     yield {"k": "none", "empties": 0}
@@ -125,6 +131,10 @@ def check(ctx, case):
             ref = o
         elif not _same_obs(ref, o):
             fails.append(Fail(kind="O", what="result depends on the order of the list", order=list(order)))
+        elif num == "float":
+            req = I.outcome(lambda: (bool(build(order) == build(orders[0])), float(build(order)) == float(build(orders[0]))))
+            if req != ("ok", (True, True)):
+                fails.append(Fail(kind="O", what="two orders of the same list are not == / differ in float(S)", order=list(order), impl=req))
     if ref is None:
         return fails
     for name, f in (("operators", via_ops), ("&", via_and)):
@@ -147,6 +157,8 @@ def check(ctx, case):
         if rr in ("in", "out") and got != (rr == "in"):
             fails.append(Fail(kind="O", what="membership of the composite is not the intersection/union of its members", p=p))
             break
+    if num == "float":
+        return fails            # the exact model does not apply to float sums
     ctx.k_cases += 1
     am = ctx.model.shape_area(model_shape)
     mm = [ctx.model.moment(model_shape, a, b) for a, b in ((1, 0), (0, 1), (2, 0), (1, 1), (0, 2))]
